@@ -104,6 +104,7 @@ class RabbitAdapter(Adapter):
         self.broker, self.ch, self.srv = fa.mk_broker()
         self.srv.confirm_turns = getattr(self, "confirm_turns", 0)
         self.srv.settle_turns = getattr(self, "settle_turns", 0)
+        self.srv.consume_ok_turns = getattr(self, "consume_ok_turns", 0)
         await self.broker.queue_declare("default")
         self.cons = {}
         self.started = set()
